@@ -315,6 +315,15 @@ def gen_spec(rng, cls, n):
                 tr = [t.forward_table.get(sub[i:i + 3], "*") for i in range(0, len(sub) - len(sub) % 3, 3)]
                 if pol is not None and sub[:3] in t.start_codons:
                     tr[0] = "M"
+                if isinstance(pol, tuple) and rng.random() < 0.5:
+                    # a declared start codon that the genetic table may not list (GTG under Standard)
+                    s = list(seq)
+                    if st == -1:
+                        s[b - 3:b] = rcs("GTG")
+                    else:
+                        s[a:a + 3] = "GTG"
+                    seq = "".join(s)
+                    tr[0] = "M"
                 if len(tr) > 1 and rng.random() < 0.5:
                     tr[rng.randrange(1, len(tr))] = rng.choice("ACDEFGHIKLMNPQRSTVWY")
                 kw["translation"] = "".join(tr)
